@@ -867,6 +867,8 @@ async def scenario(spec):
     obs = {"before": snap(), "old": {"service": old_service, "settings": old_settings}}
     others_before = snap_others()
     misuse = spec.get("misuse")
+    if spec.get("pin_before_begin") is not None:
+        h.pin(spec["pin_before_begin"])       # the user may enter the PIN before begin() as well
     res_b, ex_b = ("skipped", None)
     if misuse != "no_begin":
         res_b, ex_b = await call(h.begin, plan, spec.get("cancel"), spec.get("cancel_after") if spec.get("phase") == "begin" else None)
@@ -877,7 +879,10 @@ async def scenario(spec):
     res_f, ex_f = ("skipped", None)
     if res_b in ("ok", "skipped"):
         if misuse != "no_pin":
-            h.pin(spec.get("pin", PIN))
+            # pin() may be called several times before finish(): the LAST one set is the one to use
+            pins = spec.get("pins")
+            for pn in (pins if pins is not None else [spec.get("pin", PIN)]):
+                h.pin(pn)
         res_f, ex_f = await call(h.finish, plan, spec.get("cancel"), spec.get("cancel_after") if spec.get("phase") == "finish" else None)
     obs["finish"] = res_f if ex_f is None else "raised:" + exc_name(ex_f)
     obs["finish_msg"] = str(ex_f)[:200] if ex_f is not None else None
@@ -1165,6 +1170,16 @@ def matrix(handler, names, rng, thorough, extra=None, light=False):
         specs.append({"handler": handler, "kind": "wrong_pin", "pin": pin})
     specs.append({"handler": handler, "misuse": "no_pin"})
     specs.append({"handler": handler, "misuse": "no_begin"})
+    if not light:
+        # pin() several times (also before begin()): the PIN used must be the last one set
+        for pins in ([1112, PIN], [0, 9999, PIN], [PIN, PIN], ["1111"]):
+            specs.append({"handler": handler, "pins": pins})
+        for pins in ([PIN, 1112], [PIN, 0], [1112, PIN, 1110]):
+            specs.append({"handler": handler, "kind": "wrong_pin", "pins": pins})
+        specs.append({"handler": handler, "pin_before_begin": PIN, "pins": []})
+        specs.append({"handler": handler, "pin_before_begin": 1112, "pins": [PIN]})
+        specs.append({"handler": handler, "kind": "wrong_pin", "pin_before_begin": PIN, "pins": [1112]})
+        specs.append({"handler": handler, "kind": "wrong_pin", "pin_before_begin": 1112, "pins": []})
     if light:
         specs = [sp for sp in specs if sp.get("kind") != "wrong_pin" or sp["pin"] == 1112]
     if thorough and not light:
@@ -1667,6 +1682,150 @@ def judge_dmap_multi(spec, obs):
     return out
 
 
+async def scenario_dmap_history(spec):
+    """DMAP: begin(); then a history of user-side pin(x) calls and device-side pairing requests
+    (code computed for some PIN, or garbage); then finish().
+    history = [["pin", x] | ["req", <pin the code is computed for> | "garbage"] ...]"""
+    from pyatv import conf
+    from pyatv.const import Protocol
+    from pyatv.core import Core, MutableService, ProtocolStateDispatcher, CoreStateDispatcher
+    from pyatv.settings import Settings
+    from pyatv.support.state_producer import StateProducer
+    from pyatv.protocols.dmap import pairing as dp
+    from pyatv.protocols import dmap
+
+    class SessionManager:
+        async def close(self):
+            pass
+
+    class Zc:
+        def close(self):
+            pass
+
+    class Site:
+        def __init__(self, *a, **k):
+            pass
+
+        async def start(self):
+            pass
+
+    async def publish(loop_, svc, zc):
+        pass
+
+    loop = asyncio.get_running_loop()
+    old_service, old_settings = old_credentials("dmap")
+    service = MutableService("fake-id", Protocol.DMAP, 3689, {}, credentials=old_service)
+    settings = Settings()
+    settings.protocols.dmap.credentials = old_settings
+    core = Core(loop, conf.AppleTV("10.0.0.2", "Fake"), service, settings, StateProducer(), SessionManager(), lambda *a: (lambda: None),
+                ProtocolStateDispatcher(Protocol.DMAP, CoreStateDispatcher()))
+    guid = "0x0123456789ABCDEF"
+    h = dmap.pair(core, zeroconf=Zc(), addresses=["10.0.0.1"], pairing_guid=guid, name="verif")
+
+    def snap():
+        return {"service": service.credentials, "settings": settings.protocols.dmap.credentials, "has_paired": bool(h.has_paired)}
+
+    obs = {"before": snap(), "steps": [], "expected_credentials": "0x" + guid[2:]}
+    saved = (dp.web.TCPSite, dp.mdns.publish)
+    dp.web.TCPSite, dp.mdns.publish = Site, publish
+    try:
+        try:
+            await h.begin()
+            obs["begin"] = "ok"
+        except Exception as ex:  # noqa
+            obs["begin"] = "raised:" + exc_name(ex)
+    finally:
+        dp.web.TCPSite, dp.mdns.publish = saved
+    for op, arg in spec["history"]:
+        if op == "pin":
+            h.pin(arg)
+            obs["steps"].append({"op": "pin", "arg": arg})
+            continue
+        code = "zz" if arg == "garbage" else dmap_code(guid[2:], int(arg))
+
+        class Url:
+            pass
+
+        class Request:
+            rel_url = Url()
+        Request.rel_url.query = {"servicename": "remote", "pairingcode": code}
+        try:
+            resp = await h.handle_request(Request())
+            status = resp.status
+        except Exception as ex:  # noqa
+            status = "raised:" + exc_name(ex)
+        obs["steps"].append(dict({"op": "req", "arg": arg, "status": status}, **snap()))
+    try:
+        await h.finish()
+        obs["finish"] = "ok"
+    except Exception as ex:  # noqa
+        obs["finish"] = "raised:" + exc_name(ex)
+    obs["after"] = snap()
+    try:
+        await h.close()
+    except Exception:  # noqa
+        pass
+    return obs
+
+
+def judge_dmap_history(spec, obs):
+    """Every request is judged against the PIN set most recently (none set: any code pairs)."""
+    out = []
+    cur = None
+    paired = False
+    seen = []
+    if obs.get("begin") != "ok":
+        out.append(("C08:dmap:wrong-exception", "begin() with the web server and mDNS faked failed: %s" % obs.get("begin")))
+    for (op, arg), st in zip(spec["history"], obs["steps"]):
+        seen.append("%s(%s)" % (op, arg))
+        if op == "pin":
+            cur = arg
+            continue
+        accept = cur is None or (arg != "garbage" and "%04d" % int(arg) == str(cur).zfill(4))
+        desc = "history %s: PIN in force %r, request carries the code for %s" % (" ".join(seen), cur, arg)
+        if accept:
+            paired = True
+            if st["status"] != 200 or not st["has_paired"]:
+                out.append(("C08:dmap:success-not-recorded:after-pin-change", "%s: status=%s has_paired=%s" % (desc, st["status"], st["has_paired"])))
+        else:
+            if st["status"] == 200 or (st["has_paired"] and not paired):
+                out.append(("C08:dmap:wrong-pin-accepted:after-pin-change" if len([x for x in seen if x.startswith("pin")]) > 1 else "C08:dmap:wrong-pin-accepted",
+                            "%s: status=%s has_paired=%s" % (desc, st["status"], st["has_paired"])))
+        if st["service"] != obs["before"]["service"] or st["settings"] != obs["before"]["settings"]:
+            out.append(("C08:dmap:credentials-written-on-failure", "%s: credentials written before finish()" % desc))
+    b, a = obs["before"], obs["after"]
+    if paired:
+        if not (a["has_paired"] and a["service"] == obs["expected_credentials"] == a["settings"] and obs["finish"] == "ok"):
+            out.append(("C08:dmap:success-not-recorded:after-pin-change", "history %s: a request was accepted but finish=%s after=%s" % (" ".join(seen), obs["finish"], a)))
+    else:
+        if a["has_paired"] or a["service"] != b["service"] or a["settings"] != b["settings"]:
+            out.append(("C08:dmap:wrong-pin-accepted:after-pin-change", "history %s: no request carried the code of the PIN in force, yet after finish(): %s (before: %s)" % (" ".join(seen), a, b)))
+    return out
+
+
+def dmap_history_specs(rng, thorough):
+    """All histories of length <= 4 over {pin(a), pin(b), req(a), req(b), req(garbage)} that contain a
+    request (a request before any pin() is made with no PIN configured: any code pairs)."""
+    import itertools
+    out = []
+
+    def gen(a, b, maxlen):
+        ops = [["pin", a], ["pin", b], ["req", a], ["req", b], ["req", "garbage"]]
+        for n in range(1, maxlen + 1):
+            for seq in itertools.product(ops, repeat=n):
+                if any(o[0] == "req" for o in seq):
+                    out.append({"handler": "dmap", "history": [list(o) for o in seq]})
+
+    gen(1111, 2222, 4)
+    gen(0, 7, 3)                       # zero-padded PINs
+    out.append({"handler": "dmap", "history": [["pin", 7], ["req", 7], ["pin", "0007"], ["req", 7]]})
+    if thorough:
+        for _ in range(4):
+            a, b = rng.sample(range(10000), 2)
+            gen(a, b, 4)
+    return out
+
+
 def dmap_multi_specs():
     out = []
     for pin in (0, 1234):
@@ -1681,7 +1840,10 @@ def dmap_multi_specs():
 def evaluate(spec):
     """-> (observation, [(key, what)]).  spec['tag'] (corpus witnesses of recorded findings) is
     appended to the keys so that such a finding has a key of its own."""
-    if "rounds" in spec:
+    if "history" in spec:
+        obs = run_coro(scenario_dmap_history, spec)
+        verdicts = judge_dmap_history(spec, obs)
+    elif "rounds" in spec:
         obs = run_coro(scenario_dmap_multi, spec)
         verdicts = judge_dmap_multi(spec, obs)
     elif "attempts" in spec:
@@ -1705,7 +1867,7 @@ def canon(spec):
 def brief(obs):
     if "attempts" in obs:
         return {"attempts": [{k: a[k] for k in ("begin", "begin_msg", "finish", "finish_msg", "hit_name", "before", "after")} for a in obs["attempts"]]}
-    if "rounds" in obs:
+    if "rounds" in obs or "steps" in obs:
         return obs
     keys = ("begin", "finish", "begin_msg", "finish_msg", "hit_name", "before", "after", "status", "after_request", "replies")
     return {k: obs[k] for k in keys if k in obs}
@@ -1748,8 +1910,8 @@ def run_part(ctx):
         obs, verdicts = res
         n_runs += 1
         h = spec["handler"]
-        if "attempts" in spec or "rounds" in spec:
-            ctx.count("%s:several-attempts" % h)
+        if "attempts" in spec or "rounds" in spec or "history" in spec:
+            ctx.count("%s:%s" % (h, "pin-and-request-histories" if "history" in spec else "several-attempts"))
             if (h, "multi") not in sampled:
                 sampled.add((h, "multi"))
                 samples.append({"spec": spec, "observed": brief(obs)})
@@ -1828,6 +1990,8 @@ def run_part(ctx):
         many(specs)
         # several attempts on ONE handler object (success then failure, failure then success, ...)
         many(multi + dmap_multi_specs())
+        # DMAP: the user changes the PIN between device requests
+        many(dmap_history_specs(ctx.rng, ctx.thorough))
         # 3. cancellation at EVERY scheduling point of begin() and of finish(), not only while a reply
         #    is awaited: cancel after k turns of the event loop, k = 0 .. until the call completes
         k0, width = 0, 16
